@@ -21,7 +21,7 @@ RULE = ('EVERY (length n, chunk size, overlap < chunk) with n <= N, chunk <= 16 
         'data, each kept part inside its chunk, chunk length <= chunk size); EVERY (n, n_excerpts 2..6, '
         'size 1..10) for excerpts and n_excerpts 0..6 for get_excerpts; EVERY list of <= 4 file sizes '
         '<= 6 x chunk <= 8 for _get_chunk_bounds (interval-tiling oracle + M2 contract), with real '
-        'multi-file flat readers for all lists of <= 3 files (chunk_bounds, iter_chunks, data per '
+        'multi-file flat readers (header offsets 0/4/7/16 bytes) for all lists of <= 3 files (chunk_bounds, iter_chunks, data per '
         'interval vs ground truth); compressed readers over chunk lengths x decoder threads 1..4 x '
         'cache on/off x 3 repetitions. non-trivial = distinct triples with n mod (chunk-overlap) != 0 '
         'or n < chunk or odd overlap; excerpt triples with n < k*size or (n-size) mod (k-1) != 0; file '
@@ -225,11 +225,12 @@ def _case_flat_reader(case, ctx):
     A = L.unique_cells(n, 2, np.int16)
     d = scratch_dir('c16_')
     try:
-        paths = L.write_flat(d, A, sizes, ext='.bin')
+        offset = [0, 16, 4, 7][sum(sizes) % 4]          # header bytes: 16 = four whole rows of 2 int16 channels
+        paths = L.write_flat(d, A, sizes, offset=offset, ext='.bin')
         for cs in case['chunks']:
             ctx.count(1, key=hkey('fr', tuple(sizes), cs), nontrivial=min(sizes) < cs and len(sizes) > 1,
                       cell=('flat_reader', 'nf%d' % len(sizes)))
-            r = call(get_ephys_reader, list(paths), sample_rate=cs / 600., dtype=np.int16, n_channels=2)
+            r = call(get_ephys_reader, list(paths), sample_rate=cs / 600., dtype=np.int16, n_channels=2, offset=offset)
             sub = dict(case, chunks=[cs])
             if not r.ok:
                 ctx.violation('raised', sub, 'get_ephys_reader raised %r' % r.exc, tb=r.tb)
